@@ -1,6 +1,6 @@
 """Layer S: a real Scheduler + Executor closed loop against the Lean scheduler + executor models,
 on the same arrivals; every round's decision, scheduler queues and world are compared."""
-import contextlib, importlib, io, logging, os, random, sys, tempfile
+import atexit, contextlib, importlib, io, logging, os, random, shutil, sys, tempfile
 from fractions import Fraction as F
 from common import REPO, Driver, fstr, num
 from layer_e import Impl, quantum, to_q, classify, setup_lines, order_lines, NonLattice, project, FULL
@@ -22,6 +22,7 @@ def template_scheduler():
     from eudoxia.__main__ import main
     name = f"verif_tmpl_{os.getpid()}"
     td = tempfile.mkdtemp(prefix="verif_tmpl_")
+    atexit.register(shutil.rmtree, td, True)     # nothing is left under /tmp when the check ends
     with contextlib.redirect_stdout(io.StringIO()):
         main(["init", os.path.join(td, "p.toml"), "-s", name, "-f"])
     sys.path.insert(0, td)
@@ -111,6 +112,9 @@ def run_impl_s(sc):
 def run_model_s(sc, order, drv):
     drv.send("reset")
     drv.batch(setup_lines(sc) + order_lines(sc, order))
+    # the decidable hypotheses of the whole-run theorems, on this very workload (Props/C08 `checked_hypotheses_are_the_theorems_hypotheses`)
+    fut = [p for a in sc["arrivals"] for p in a]
+    drv.last_hyp = drv.send("hyp " + (",".join(map(str, fut)) if fut else "-"))
     drv.send(f"sched {sc['algo']}")
     obs = []
     for new in sc["arrivals"]:
